@@ -16,7 +16,7 @@ def pyDiskAt (r : Nat) (v : List Int) : Bool :=
 /-- **`morph.disk` (current source)**, for every scalar type and all primitives: dimensions `≤ 0` and `> 64` raise; the
     shape is `2·radius + 1` per axis; two dimensions go to the C++ kernel `disk_2d` on a zero array of that shape; every
     other dimension is `Σ (index − radius)² < radius²` over `np.indices(shape)`. -/
-theorem pybody_morph_disk_eq_model {K X A D : Type} [Add K] [Sub K] [Mul K] [LT K] [DecidableLT K]
+theorem pybody_morph_disk_eq_model {K X A D : Type} [Add K] [Sub K] [Mul K] [LT K] [DecidableLT K] [LE K] [DecidableLE K]
     (ofNat : Nat → K) (P : DiskPrims K X A D) (r d : Nat) :
     morph_disk ofNat P r d =
       if d = 0 ∨ 64 < d then none
